@@ -445,7 +445,7 @@ func healthScenario(s *verifsim.Sim) {
 	logger := logrus.New()
 	logger.SetOutput(io.Discard)
 	// production logs at info level; code guarded by IsLevelEnabled runs only then
-	logger.SetLevel([]logrus.Level{logrus.PanicLevel, logrus.InfoLevel, logrus.InfoLevel, logrus.TraceLevel}[s.T.Choose(4)])
+	logger.SetLevel([]logrus.Level{logrus.PanicLevel, logrus.PanicLevel, logrus.InfoLevel, logrus.InfoLevel}[s.T.Choose(4)]) // (trace level costs a third of the throughput and guards nothing but formatting)
 	keys := componentdialer.StandardHealthKeys()
 	for i, k := range keys {
 		w.types[i] = k.NetworkType()
@@ -597,7 +597,7 @@ func healthScenario(s *verifsim.Sim) {
 	)
 	probeTypes := []int{0, 1, 2, 3} // dns-udp4/6, tcp4/6 (StandardHealthKeys order)
 	drawEv := func() ev {
-		e := ev{kind: T.Pick(6, 5, 1, 1, 4, 1, 2, 3, 3, 1, 1, 2, 1, 5), node: T.Choose(nNodes), typ: T.Choose(6), group: T.Choose(nGroups)}
+		e := ev{kind: T.Pick(6, 5, 1, 1, 4, 1, 2, 3, 3, 1, 1, 2, 2, 5), node: T.Choose(nNodes), typ: T.Choose(6), group: T.Choose(nGroups)}
 		switch e.kind {
 		case eProbeOK, eProbeFail, eProbeCanceled, eProbeSkip:
 			e.typ = probeTypes[T.Choose(4)]
